@@ -17,7 +17,7 @@ def FLOORS(tier):
     q = tier == "quick"
     f = {"multi-constraint-history": 200 if q else 5000, "exactness-checks": 2000 if q else 60000,
          "is_solution_valid-checks": 10000 if q else 300000, "delta-checks": 3000 if q else 10 ** 5,
-         "ancillas:1-3": 300, "ancillas:>=4": 100, "caller-edits-its-polynomial-afterwards": 300, "interleaved-validity-checks": 1500, "bounds:widened-fractional": 150, "between-constraints:update-with-model": 40, "between-constraints:deepcopy": 40, "between-constraints:copy.copy": 40, "log_trick-spelled-as-int-or-numpy-bool": 150, "refresh-between-constraints": 150, "multi-constraint-step": 400}
+         "ancillas:1-3": 300, "ancillas:>=4": 100, "caller-edits-its-polynomial-afterwards": 300, "interleaved-validity-checks": 1500, "bounds:widened-fractional": 150, "between-constraints:update-with-model": 40, "between-constraints:deepcopy": 40, "between-constraints:copy.copy": 40, "log_trick-spelled-as-int-or-numpy-bool": 150, "refresh-between-constraints": 150, "arguments-passed-positionally": 150, "multi-constraint-step": 400}
     for R in C.RELS:
         for lt in ((True, False) if R != "eq" else ("n/a",)):
             f["rel:%s:log_trick=%s" % (R, lt)] = 100 if q else 3000
